@@ -4,10 +4,9 @@ CPU_STUB = 'harness/C15/dispatch.c: carquet_get_cpu_info() returns an arbitrary 
 D = dict(prop='C15', harness='harness/C15/dispatch.c', defines=X86, loop_contracts=False, trusted=[CPU_STUB])
 
 JOBS = [
-    dict(name='c15_dispatch_init', entry='h_dispatch_init', functions=['carquet_simd_dispatch_init'], unwind=200, wip=True, **D),
-    dict(name='c15_dispatch_isa_subset', entry='h_dispatch_isa_subset', functions=['carquet_simd_dispatch_init'], unwind=200, wip=True,
-         note='FINDING: AVX-512 kernels are built with -mavx512bw -mavx512vl but selected on has_avx512f alone', **D),
-    dict(name='c15_dispatch_wrappers', entry='h_dispatch_wrappers', wip=True,
+    dict(name='c15_dispatch_init', entry='h_dispatch_init', functions=['carquet_simd_dispatch_init'], unwind=200, wip=False, **D),
+    dict(name='c15_dispatch_isa_subset', entry='h_dispatch_isa_subset', functions=['carquet_simd_dispatch_init'], unwind=200, wip=True, **D),
+    dict(name='c15_dispatch_wrappers', entry='h_dispatch_wrappers', wip=False,
          functions=['carquet_dispatch_prefix_sum_i32', 'carquet_dispatch_prefix_sum_i64', 'carquet_dispatch_gather_i32',
                     'carquet_dispatch_gather_i64', 'carquet_dispatch_gather_float', 'carquet_dispatch_gather_double',
                     'carquet_dispatch_byte_split_encode_float', 'carquet_dispatch_byte_split_decode_float',
@@ -15,7 +14,7 @@ JOBS = [
                     'carquet_dispatch_unpack_bools', 'carquet_dispatch_pack_bools', 'carquet_dispatch_find_run_length_i32',
                     'carquet_dispatch_crc32c', 'carquet_dispatch_match_copy', 'carquet_dispatch_match_length',
                     'carquet_dispatch_count_non_nulls', 'carquet_dispatch_build_null_bitmap', 'carquet_dispatch_fill_def_levels'], **D),
-    dict(name='c15_dispatch_wrappers_lazy', entry='h_dispatch_wrappers_lazy', unwind=200, wip=True,
+    dict(name='c15_dispatch_wrappers_lazy', entry='h_dispatch_wrappers_lazy', unwind=200, wip=False,
          extra_sources=['stubs/mem_stubs.c', 'stubs/simd_stubs.c'],
          functions=['carquet_simd_dispatch_init'], **D),
 ]
@@ -33,16 +32,13 @@ def sj(fn, loops=1, **kw):
     d.update(S); d.update(kw)
     return d
 JOBS += [
-    sj('scalar_prefix_sum_i32', checks=NO_OVF, note='functional part, two\'s complement; signed overflow of sum is job ..._ub'),
-    sj('scalar_prefix_sum_i64', checks=NO_OVF, note='functional part, two\'s complement; signed overflow of sum is job ..._ub'),
+    sj('scalar_prefix_sum_i32'), sj('scalar_prefix_sum_i64'),   # all default checks incl. signed overflow (fixed by e882fa5)
     sj('scalar_gather_i32'), sj('scalar_gather_i64'), sj('scalar_gather_float'), sj('scalar_gather_double'),
     sj('scalar_byte_split_encode_float'),
     sj('scalar_byte_split_decode_float'),
     sj('scalar_byte_split_encode_double'),
     sj('scalar_byte_split_decode_double'),
-    sj('scalar_unpack_bools', note='FINDING: byte index narrowed to int; count > 2^34 reads input[] at a negative index'),
-    sj('scalar_unpack_bools', name='c15_scalar_unpack_bools_lt2e34', defines=X86 + ['CQV_BOOLS_MAX=17179869184LL'],
-       level='bounded', bound='count <= 2^34 (byte index fits int)'),
+    sj('scalar_unpack_bools'),   # full count domain (byte index is size_t since 591c517)
     sj('scalar_pack_bools'),
     sj('scalar_find_run_length_i32'),
     sj('scalar_crc32c'),
@@ -54,3 +50,70 @@ JOBS += [
     dict(name='c15_scalar_crc32c_check_value', entry='h_scalar_crc32c_check_value', loop_contracts=False, unwind=10,
          functions=['scalar_crc32c'], level='bounded', bound='the 9-byte message "123456789"', wip=True, **S),
 ]
+
+# ---- SSE4.2 kernels (sse_ops.c) -----------------------------------------------------------------
+IA32 = 'stubs/ia32_model.c: C models (Intel SDM pseudo-code) of pshufb128, punpck{l,h}{bw,wd}128, pmovmskb128, packsswb128, pminub128, pslldqi128, psrlwi128, pslldi128, vec_ext_v4si, crc32{qi,hi,si,di}; __builtin_prefetch = no-op (A6; validated natively against the instructions on 2e6 vectors)'
+UNW_IA32 = ['__builtin_ia32_pshufb128.0:17', '__builtin_ia32_punpcklbw128.0:9', '__builtin_ia32_punpckhbw128.0:9',
+            '__builtin_ia32_punpcklwd128.0:5', '__builtin_ia32_punpckhwd128.0:5', '__builtin_ia32_pmovmskb128.0:17',
+            '__builtin_ia32_packsswb128.0:9', '__builtin_ia32_pminub128.0:17', '__builtin_ia32_pslldqi128.0:17',
+            '__builtin_ia32_psrlwi128.0:9', '__builtin_ia32_pslldi128.0:5', 'crc32c_bits.0:9', 'crc32c_bits.1:9', 'spec_crc32c_byte.0:9',
+            'memcpy.0:17']
+# inner fixed-width loops of sse_ops.c kernels (goto loop numbers)
+UNW_SSE = ['carquet_sse_byte_stream_split_encode_float.1:5', 'carquet_sse_byte_stream_split_decode_float.1:5',
+           'carquet_sse_byte_stream_split_encode_double.0:9', 'carquet_sse_byte_stream_split_encode_double.2:9',
+           'carquet_sse_byte_stream_split_decode_double.0:9', 'carquet_sse_pack_bools.1:9',
+           'carquet_sse_build_null_bitmap.1:9']
+E = dict(prop='C15', overlays=['contracts/sse_ops.ovl'], harness='harness/C15/sse.c',
+         defines=['__SSE4_2__=1', 'CQV_MEMCPY_EXACT=16'], extra_sources=['stubs/mem_stubs.c', 'stubs/ia32_model.c'],
+         trusted=[IA32, 'harness/C15/sse.c: _mm_loadl_epi64/_mm_storel_epi64 replaced by MOVQ models (CBMC cannot cast __m64 to long long)'], timeout=300)
+def ej(fn, loops=1, **kw):
+    d = dict(name='c15_sse_' + fn, entry='h_sse_' + fn, enforce='carquet_sse_' + fn, min_loop_obligations=loops, wip=True,
+             unwindset=UNW_IA32 + UNW_SSE)
+    d.update(E); d.update(kw)
+    return d
+JOBS += [
+    ej('fill_def_levels', loops=2),
+    ej('prefix_sum_i32', loops=2, checks=NO_OVF), ej('prefix_sum_i64', loops=2, checks=NO_OVF),
+    ej('gather_i32', loops=3), ej('gather_i64', loops=2), ej('gather_float', loops=3), ej('gather_double', loops=2),
+    ej('byte_stream_split_encode_float', loops=2), ej('byte_stream_split_decode_float', loops=2),
+    ej('byte_stream_split_encode_double', loops=2), ej('byte_stream_split_decode_double', loops=1),
+    ej('unpack_bools', loops=2),   # full count domain (591c517)
+    # domain of the SSE kernel is documented as bytes 0/1 ("Input bytes should be 0 or 1"); the claim is made element by
+    # element for bytes in {0,1}.  Observation (not a job): for other byte values it packs bit 0, the scalar packs (byte != 0).
+    ej('pack_bools', loops=1, name='c15_sse_pack_bools_01', defines=E['defines'] + ['CQV_BOOL01=1'],
+       level='bounded', bound='input bytes in {0,1} (documented kernel domain); every count'),
+    ej('find_run_length_i32', loops=2), ej('count_non_nulls', loops=2), ej('build_null_bitmap', loops=1),
+    ej('crc32c', loops=2),   # with ~crc pre/post inversion (ab160bd)
+    # SSE prefix sums with the signed-overflow obligation kept (tail loop still does int sum += values[i])
+    ej('prefix_sum_i32', loops=2, name='c15_sse_prefix_sum_i32_ub'), ej('prefix_sum_i64', loops=2, name='c15_sse_prefix_sum_i64_ub'),
+]
+def lemma(fn, **kw):
+    d = dict(name='c15_sse_' + fn, entry='h_sse_' + fn, loop_contracts=False, unwind=66, functions=['carquet_sse_' + fn], wip=True)
+    d.update(E); d['overlays'] = []; d.update(kw)
+    return d
+JOBS += [
+    lemma('crc32c_check_value', level='bounded', bound='the 9-byte message "123456789"'),
+    lemma('bitunpack32_1bit'), lemma('bitunpack8_4bit'), lemma('bitunpack8_8bit'),
+]
+
+# ---- status after validation (ok on /repo AND a deliberate breakage of the function detected) -----
+VALIDATED = set("""
+c15_scalar_gather_i32 c15_scalar_gather_i64 c15_scalar_gather_float
+c15_scalar_gather_double c15_scalar_byte_split_encode_float c15_scalar_byte_split_decode_float
+c15_scalar_byte_split_encode_double c15_scalar_byte_split_decode_double
+c15_scalar_pack_bools c15_scalar_find_run_length_i32 c15_scalar_crc32c c15_scalar_match_length
+c15_scalar_count_non_nulls c15_scalar_fill_def_levels
+c15_sse_fill_def_levels c15_sse_prefix_sum_i32 c15_sse_prefix_sum_i64 c15_sse_gather_i32 c15_sse_bitunpack32_1bit
+c15_sse_bitunpack8_4bit c15_sse_bitunpack8_8bit c15_sse_pack_bools_01
+c15_sse_find_run_length_i32 c15_sse_count_non_nulls c15_sse_build_null_bitmap
+""".split())
+THOROUGH = {'c15_scalar_byte_split_encode_double': 220, 'c15_scalar_byte_split_decode_double': 60,
+            'c15_sse_gather_i32': 300, 'c15_sse_prefix_sum_i32': 95, 'c15_sse_prefix_sum_i64': 90}
+NOTES = {}
+for j in JOBS:
+    if j['name'] in VALIDATED:
+        j['wip'] = False
+    if j['name'] in THOROUGH:
+        j['tier'] = 'thorough'; j['est_s'] = THOROUGH[j['name']]; j['timeout'] = 900
+    if j['name'] in NOTES:
+        j['note'] = NOTES[j['name']]
